@@ -21,3 +21,7 @@ open RV.C16
 #print axioms json_py_text_roundtrip
 #print axioms csv_text_roundtrip
 #print axioms csv_text_preserves
+#print axioms xml_chardata_roundtrip
+#print axioms xml_attr_roundtrip
+#print axioms xml_chardata_witness
+#print axioms xml_chardata_raw_cr
